@@ -64,3 +64,97 @@ MUTANTS += [
      "edits": [("src/image.rs", "        for pixel in self.iter() {\n            writer.write_all(&pixel.to_rgba()).map_err(|err| {\n                ser::Error::custom(format!(\"[Image] faield to serialize data: {err}\"))\n            })?;\n        }",
                 "        let shape = self.shape();\n        for row in 0..shape.height {\n            let start = row * shape.row_stride;\n            for pixel in &self.data[start..start + shape.width] {\n                writer.write_all(&pixel.to_rgba()).map_err(|err| {\n                    ser::Error::custom(format!(\"[Image] faield to serialize data: {err}\"))\n                })?;\n            }\n        }")]},
 ]
+
+# ---- behaviour-preserving refactorings the rules must see through (robustness round) ----
+_GET = "    fn get(&self, pos: Position) -> Option<&Self::Item> {\n        let shape = self.shape();\n        if pos.row >= shape.height || pos.col >= shape.width {\n            None\n        } else {\n            self.data().get(shape.offset(pos))\n        }"
+_GET_MUT_HEAD = "    fn get_mut(&mut self, pos: Position) -> Option<&mut Self::Item> {\n        let shape = self.shape();\n        if pos.row >= shape.height || pos.col >= shape.width {"
+_GET_HEAD = "    fn get(&self, pos: Position) -> Option<&Self::Item> {\n        let shape = self.shape();\n        if pos.row >= shape.height || pos.col >= shape.width {"
+_NTH_TAIL = "        if offset >= self.data.len() {\n            None\n        } else {\n            // this is safe, iterator is always progressing and never\n            // returns a mutable reference to the same location.\n            let ptr = self.data.as_mut_ptr();\n            let item = unsafe { &mut *ptr.add(offset) };\n            Some(item)\n        }"
+_CLEAR_LOOP = "        for row in 0..shape.height {\n            for col in 0..shape.width {\n                data[shape.offset(Position::new(row, col))] = Default::default();\n            }\n        }"
+_FILL_LOOP = "        for row in 0..shape.height {\n            for col in 0..shape.width {\n                data[shape.offset(Position::new(row, col))] = item.clone();\n            }\n        }"
+_IMPL_SHAPE = "impl Shape {\n    /// Convert row and col to offset."
+
+MUTANTS += [
+    # helper predicate shared by get and get_mut (two callers)
+    {"id": "C07-benign-guard-helper-shared", "prop": "C07", "benign": True,
+     "edits": [("src/surface.rs", _IMPL_SHAPE, "impl Shape {\n    fn is_outside(&self, pos: Position) -> bool {\n        pos.row >= self.height || pos.col >= self.width\n    }\n\n    /// Convert row and col to offset."),
+               ("src/surface.rs", _GET_HEAD, "    fn get(&self, pos: Position) -> Option<&Self::Item> {\n        let shape = self.shape();\n        if shape.is_outside(pos) {"),
+               ("src/surface.rs", _GET_MUT_HEAD, "    fn get_mut(&mut self, pos: Position) -> Option<&mut Self::Item> {\n        let shape = self.shape();\n        if shape.is_outside(pos) {")]},
+    # the same helper with a wrong predicate must be caught through the helper
+    {"id": "C07-guard-helper-swapped-axes", "prop": "C07", "expect": "U2-GET",
+     "edits": [("src/surface.rs", _IMPL_SHAPE, "impl Shape {\n    fn is_outside(&self, pos: Position) -> bool {\n        pos.row >= self.width || pos.col >= self.height\n    }\n\n    /// Convert row and col to offset."),
+               ("src/surface.rs", _GET_HEAD, "    fn get(&self, pos: Position) -> Option<&Self::Item> {\n        let shape = self.shape();\n        if shape.is_outside(pos) {"),
+               ("src/surface.rs", _GET_MUT_HEAD, "    fn get_mut(&mut self, pos: Position) -> Option<&mut Self::Item> {\n        let shape = self.shape();\n        if shape.is_outside(pos) {")]},
+    {"id": "C07-guard-helper-and-instead-of-or", "prop": "C07", "expect": "U2-GET",
+     "edits": [("src/surface.rs", _IMPL_SHAPE, "impl Shape {\n    fn is_outside(&self, pos: Position) -> bool {\n        pos.row >= self.height && pos.col >= self.width\n    }\n\n    /// Convert row and col to offset."),
+               ("src/surface.rs", _GET_HEAD, "    fn get(&self, pos: Position) -> Option<&Self::Item> {\n        let shape = self.shape();\n        if shape.is_outside(pos) {")]},
+    # early returns, operands flipped
+    {"id": "C07-benign-get-early-returns", "prop": "C07", "benign": True,
+     "edits": [("src/surface.rs", _GET, "    fn get(&self, pos: Position) -> Option<&Self::Item> {\n        let shape = self.shape();\n        if shape.height <= pos.row {\n            return None;\n        }\n        if !(shape.width > pos.col) {\n            return None;\n        }\n        self.data().get(shape.offset(pos))")]},
+    # a bool local, match instead of if
+    {"id": "C07-benign-get-bool-local-match", "prop": "C07", "benign": True,
+     "edits": [("src/surface.rs", _GET, "    fn get(&self, pos: Position) -> Option<&Self::Item> {\n        let shape = self.shape();\n        let inside = pos.row < shape.height && pos.col < shape.width;\n        match inside {\n            true => self.data().get(shape.offset(pos)),\n            false => None,\n        }")]},
+    # Range::contains
+    {"id": "C07-benign-get-range-contains", "prop": "C07", "benign": True,
+     "edits": [("src/surface.rs", _GET, "    fn get(&self, pos: Position) -> Option<&Self::Item> {\n        let shape = self.shape();\n        if (0..shape.height).contains(&pos.row) && (0..shape.width).contains(&pos.col) {\n            self.data().get(shape.offset(pos))\n        } else {\n            None\n        }")]},
+    {"id": "C07-get-range-contains-inclusive", "prop": "C07", "expect": "U2-GET",
+     "edits": [("src/surface.rs", _GET, "    fn get(&self, pos: Position) -> Option<&Self::Item> {\n        let shape = self.shape();\n        if (0..=shape.height).contains(&pos.row) && (0..shape.width).contains(&pos.col) {\n            self.data().get(shape.offset(pos))\n        } else {\n            None\n        }")]},
+    # debug_assert! of something that holds, in front of the real guard
+    {"id": "C07-benign-get-debug-assert", "prop": "C07", "benign": True,
+     "edits": [("src/surface.rs", _GET_HEAD, "    fn get(&self, pos: Position) -> Option<&Self::Item> {\n        let shape = self.shape();\n        debug_assert!(shape.start <= shape.end);\n        if pos.row >= shape.height || pos.col >= shape.width {")]},
+    # unsafe guard: condition negated and branches swapped / operands flipped
+    {"id": "C07-benign-unsafe-guard-positive", "prop": "C07", "benign": True,
+     "edits": [("src/surface.rs", _NTH_TAIL, "        if self.data.len() > offset {\n            let ptr = self.data.as_mut_ptr();\n            let item = unsafe { &mut *ptr.add(offset) };\n            Some(item)\n        } else {\n            None\n        }")]},
+    {"id": "C07-benign-unsafe-guard-hoisted-len", "prop": "C07", "benign": True,
+     "edits": [("src/surface.rs", _NTH_TAIL, "        let len = self.data.len();\n        if !(offset < len) {\n            return None;\n        }\n        let ptr = self.data.as_mut_ptr();\n        let item = unsafe { &mut *ptr.add(offset) };\n        Some(item)")]},
+    {"id": "C07-unsafe-guard-positive-le", "prop": "C07", "expect": "U1-UNSAFE",
+     "edits": [("src/surface.rs", _NTH_TAIL, "        if self.data.len() >= offset {\n            let ptr = self.data.as_mut_ptr();\n            let item = unsafe { &mut *ptr.add(offset) };\n            Some(item)\n        } else {\n            None\n        }")]},
+    # Shape::nth: remainder operator, if/else instead of then_some, lazy then
+    {"id": "C07-benign-nth-rem", "prop": "C07", "benign": True,
+     "edits": [("src/surface.rs", "        let col = n - row * self.width;", "        let col = n % self.width;")]},
+    {"id": "C07-benign-nth-if-else", "prop": "C07", "benign": True,
+     "edits": [("src/surface.rs", "        (row < self.height).then_some(Position { row, col })", "        if self.height > row {\n            Some(Position::new(row, col))\n        } else {\n            None\n        }")]},
+    {"id": "C07-benign-nth-then-closure", "prop": "C07", "benign": True,
+     "edits": [("src/surface.rs", "        let col = n - row * self.width;\n        (row < self.height).then_some(Position { row, col })", "        let col = n - self.width * row;\n        (row < self.height).then(|| Position { row, col })")]},
+    {"id": "C07-nth-rem-by-height", "prop": "C07", "expect": "U4-NTH",
+     "edits": [("src/surface.rs", "        let col = n - row * self.width;", "        let col = n % self.height;")]},
+    {"id": "C07-nth-if-else-no-guard", "prop": "C07", "expect": "U4-NTH",
+     "edits": [("src/surface.rs", "        (row < self.height).then_some(Position { row, col })", "        if self.height >= row {\n            Some(Position::new(row, col))\n        } else {\n            None\n        }")]},
+    # loops as iterator chains
+    {"id": "C07-benign-clear-iterator-chain", "prop": "C07", "benign": True,
+     "edits": [("src/surface.rs", _CLEAR_LOOP, "        (0..shape.height)\n            .flat_map(|row| (0..shape.width).map(move |col| Position::new(row, col)))\n            .for_each(|pos| data[shape.offset(pos)] = Default::default());")]},
+    {"id": "C07-benign-fill-nested-for-each", "prop": "C07", "benign": True,
+     "edits": [("src/surface.rs", _FILL_LOOP, "        (0..shape.height).for_each(|row| {\n            (0..shape.width).for_each(|col| data[shape.offset(Position::new(row, col))] = item.clone())\n        });")]},
+    {"id": "C07-clear-iterator-chain-swapped", "prop": "C07", "expect": "U5-LOOPS",
+     "edits": [("src/surface.rs", _CLEAR_LOOP, "        (0..shape.width)\n            .flat_map(|row| (0..shape.height).map(move |col| Position::new(row, col)))\n            .for_each(|pos| data[shape.offset(pos)] = Default::default());")]},
+    # hoisted loop invariants
+    {"id": "C07-benign-fill-hoisted-bounds", "prop": "C07", "benign": True,
+     "edits": [("src/surface.rs", _FILL_LOOP, "        let (rows, cols) = (shape.height, shape.width);\n        for row in 0..rows {\n            for col in 0..cols {\n                let offset = shape.offset(Position::new(row, col));\n                data[offset] = item.clone();\n            }\n        }")]},
+    # iterator progress: addends reordered
+    {"id": "C07-benign-progress-reordered-sum", "prop": "C07", "benign": True,
+     "edits": [("src/surface.rs", "        self.index += n + 1;\n        let pos = self.shape.nth(self.index - 1)?;\n        let offset = self.shape.offset(pos);\n\n        if offset >= self.data.len() {", "        self.index = 1 + self.index + n;\n        let pos = self.shape.nth(self.index - 1)?;\n        let offset = self.shape.offset(pos);\n\n        if offset >= self.data.len() {")]},
+    # the empty window built by a private helper of Shape::view; offset formula re-associated
+    {"id": "C07-benign-view-empty-helper", "prop": "C07", "benign": True,
+     "edits": [("src/surface.rs", "            _ => Shape {\n                height: 0,\n                width: 0,\n                row_stride: 0,\n                col_stride: 0,\n                start: 0,\n                end: 0,\n            },\n        }\n    }\n}", "            _ => Shape::empty_window(),\n        }\n    }\n\n    fn empty_window() -> Self {\n        Shape {\n            height: 0,\n            width: 0,\n            row_stride: 0,\n            col_stride: 0,\n            start: 0,\n            end: 0,\n        }\n    }\n}")]},
+    {"id": "C07-benign-offset-reassociated", "prop": "C07", "benign": True,
+     "edits": [("src/surface.rs", "self.start + pos.row * self.row_stride + pos.col * self.col_stride", "self.col_stride * pos.col + (self.start + self.row_stride * pos.row)")]},
+]
+
+MUTANTS += [
+    # the guard and the offset computed by one private helper (two callers), `?` on its result
+    {"id": "C07-benign-checked-offset-helper", "prop": "C07", "benign": True,
+     "edits": [("src/surface.rs", _IMPL_SHAPE, "impl Shape {\n    fn checked_offset(&self, pos: Position) -> Option<usize> {\n        if pos.row >= self.height || pos.col >= self.width {\n            None\n        } else {\n            Some(self.offset(pos))\n        }\n    }\n\n    /// Convert row and col to offset."),
+               ("src/surface.rs", _GET, "    fn get(&self, pos: Position) -> Option<&Self::Item> {\n        let shape = self.shape();\n        self.data().get(shape.checked_offset(pos)?)"),
+               ("src/surface.rs", _GET_MUT_HEAD + "\n            None\n        } else {\n            self.data_mut().get_mut(shape.offset(pos))\n        }", "    fn get_mut(&mut self, pos: Position) -> Option<&mut Self::Item> {\n        let shape = self.shape();\n        let offset = shape.checked_offset(pos)?;\n        self.data_mut().get_mut(offset)")]},
+    {"id": "C07-checked-offset-helper-no-col", "prop": "C07", "expect": "U2-GET",
+     "edits": [("src/surface.rs", _IMPL_SHAPE, "impl Shape {\n    fn checked_offset(&self, pos: Position) -> Option<usize> {\n        if pos.row >= self.height {\n            None\n        } else {\n            Some(self.offset(pos))\n        }\n    }\n\n    /// Convert row and col to offset."),
+               ("src/surface.rs", _GET, "    fn get(&self, pos: Position) -> Option<&Self::Item> {\n        let shape = self.shape();\n        self.data().get(shape.checked_offset(pos)?)")]},
+]
+
+MUTANTS += [
+    # `if index > 0 { nth(index - 1) }` <-> `if let Some(skip) = index.checked_sub(1) { nth(skip) }`
+    {"id": "C07-benign-insert-checked-sub", "prop": "C07", "benign": True,
+     "edits": [("src/surface.rs", "        if index > 0 {\n            iter.nth(index - 1);\n        }", "        if let Some(skip) = index.checked_sub(1) {\n            iter.nth(skip);\n        }")]},
+    {"id": "C07-insert-checked-sub-two", "prop": "C07", "expect": "U8-INDEX",
+     "edits": [("src/surface.rs", "        if index > 0 {\n            iter.nth(index - 1);\n        }", "        if let Some(skip) = index.checked_sub(2) {\n            iter.nth(skip);\n        }")]},
+]
